@@ -29,8 +29,9 @@ Require Import PV.PySeries.Sentinel PV.PySeries.Cache PV.PySeries.ProductByOrder
 
 Set Implicit Arguments.
 
-Record shead : Type := mkHead { rows : nat; cols : nat; ninf : nat }.
-   (* shape = (rows, cols), n_infinite *)
+Record shead : Type := mkHead { rows : nat; cols : nat; ninf : nat; dnames : list nat }.
+   (* shape = (rows, cols), n_infinite, dimension_names (each name encoded by a number; the
+      default names n_0, n_1, ... are 0, 1, ...) *)
 
 Inductive hmode : Type := HNone | HFull | HWrap.
 
@@ -57,7 +58,7 @@ Section CDP.
   Definition mode_halfsum (m : hmode) : bool := match m with HFull => true | _ => false end.
 
   Definition head_at (descs : list (sdesc R)) (s : sid) : shead :=
-    match nth_error descs s with Some d => head_of d | None => mkHead 0 0 0 end.
+    match nth_error descs s with Some d => head_of d | None => mkHead 0 0 0 [] end.
 
   (* The eval functions of all series of the world. *)
   Definition cdp_eval (descs : list (sdesc R)) : evalT (sval R) pyerr :=
@@ -102,9 +103,10 @@ Section CDP.
     | Some da, Some db =>
         let ha := head_of da in
         let hb := head_of db in
-        if negb (Nat.eqb (ninf ha) (ninf hb)) then None
-        else if negb (Nat.eqb (cols ha) (rows hb)) then None
-        else Some (SProd (mkHead (rows ha) (cols hb) (ninf ha)) m a b)
+        if negb (Nat.eqb (ninf ha) (ninf hb)) then None         (* unequal number of infinite dimensions *)
+        else if negb (index_eqb (dnames ha) (dnames hb)) then None   (* different dimension names *)
+        else if negb (Nat.eqb (cols ha) (rows hb)) then None    (* incompatible finite dimensions *)
+        else Some (SProd (mkHead (rows ha) (cols hb) (ninf ha) (dnames ha)) m a b)
     | _, _ => None
     end.
 
